@@ -144,9 +144,10 @@ def stNames : List String :=
   ["st.f_bsize", "st.f_frsize", "st.f_blocks", "st.f_bfree", "st.f_bavail", "st.f_files",
    "st.f_ffree", "st.f_favail", "st.f_flag", "st.f_namemax"]
 
-def jUsage (total used free : Int) (pct : Rat) (digits : Nat) : Json :=
+/-- `percent` = the exact ratio·100 before rounding, `round1` = the value returned (rounded to `digits` decimals) -/
+def jUsage (total used free : Int) (pct returned : Rat) (digits : Nat) : Json :=
   jObj [("total", jInt total), ("used", jInt used), ("free", jInt free), ("percent", jRat pct),
-        ("round1", jRat (round1 pct)), ("digits", jNat digits)]
+        ("round1", jRat returned), ("digits", jNat digits)]
 
 def handle (_ : Unit) (j : Json) : R (Unit × Json) := do
   let op ← strF j "op"
@@ -196,9 +197,9 @@ def handle (_ : Unit) (j : Json) : R (Unit × Json) := do
                              bavail := bavail, files := files, ffree := ffree, favail := favail,
                              flag := flag, namemax := namemax }
       let m : Json := match diskUsage usageCfg env with
-        | some u => jUsage u.total u.used u.free u.percentExact u.roundDigits
+        | some u => jUsage u.total u.used u.free u.percentExact u.percent u.roundDigits
         | none => jObj [("kind", "exc"), ("exc", "UnboundLocalError")]
-      return ((), jObj [("model", m), ("spec", jUsage sp.total sp.used sp.free sp.percent 1)])
+      return ((), jObj [("model", m), ("spec", jUsage sp.total sp.used sp.free sp.percent (round1 sp.percent) 1)])
     | _ => .error "st needs 10 values"
   else if op == "sysfs" then
     let disks ← listF parseSysDisk j "disks"
